@@ -105,7 +105,7 @@ type C16Case struct {
 }
 
 var c16Forms = []string{"default", "user", "path-rel", "path-abs", "path-slash", "path-nested", "path-user", "path-short", "path-rel-user", "path-dot", "path-dotdot-user"}
-var c16Priors = []string{"absent", "older", "unrelated", "base-file", "parent-file", "current-wrong-mode"}
+var c16Priors = []string{"absent", "older", "unrelated", "base-file", "parent-file", "current-wrong-mode", "base-private", "base-group-writable"}
 var c16Umasks = []int{0o022, 0o077, 0o000}
 
 func genC16(rt *rapid.T, c *Ctx) C16Case {
@@ -226,6 +226,19 @@ func checkC16(c *Ctx, cs C16Case) *Verdict {
 			_ = os.Chmod(filepath.Join(skill, "SKILL.md"), 0o600)
 			_ = os.WriteFile(filepath.Join(skill, "references", "PATTERNS.md"), []byte("old patterns, longer than nothing\n"), 0o666)
 			_ = os.WriteFile(filepath.Join(skill, "extra.txt"), []byte("user file"), 0o644)
+		case "base-private", "base-group-writable":
+			// the base directory exists already with permissions of the user's choosing
+			if baseExists {
+				prior = "as-is"
+				break
+			}
+			mode := os.FileMode(0o700)
+			if prior == "base-group-writable" {
+				mode = 0o775
+			}
+			if os.MkdirAll(base, 0o755) != nil || os.Chmod(base, mode) != nil {
+				prior = "as-is"
+			}
 		case "current-wrong-mode":
 			// an earlier installation with the CURRENT content but other permissions
 			if fi, err := os.Stat(base); err == nil && !fi.IsDir() {
